@@ -388,9 +388,9 @@ def factor_cases(draw):
 
 def campaigns(ctx):
     return [
-        Campaign('hints', case_strategy(False), check_hints, 450, 4000),
-        Campaign('clean', case_strategy(True), check_hints, 450, 4000),
-        Campaign('factors', factor_cases(), check_hints, 200, 2500),
+        Campaign('hints', case_strategy(False), check_hints, 450, 3000),
+        Campaign('clean', case_strategy(True), check_hints, 450, 3000),
+        Campaign('factors', factor_cases(), check_hints, 200, 2000),
     ]
 
 
